@@ -55,9 +55,18 @@ func TreeClone(nodes []*html.Node) *html.Node {
 			Attr:     append([]html.Attribute{}, src.Attr...),
 		}
 
+		// A block-level element that is left out of the clone still breaks the line
+		// between its neighbours: keep their words apart.
+		omittedBlock := false
 		for child := src.FirstChild; child != nil; child = child.NextSibling {
 			if _, exist := allAncestors[child]; exist {
+				if omittedBlock && clone.LastChild != nil {
+					clone.AppendChild(&html.Node{Type: html.TextNode, Data: " "})
+				}
+				omittedBlock = false
 				clone.AppendChild(fnClone(child))
+			} else if isOmittedBlock(child) {
+				omittedBlock = true
 			}
 		}
 
@@ -65,4 +74,19 @@ func TreeClone(nodes []*html.Node) *html.Node {
 	}
 
 	return fnClone(nearestAncestor)
+}
+
+// isOmittedBlock reports whether node is a visible element that is rendered as a box of
+// its own (anything but an inline element).
+func isOmittedBlock(node *html.Node) bool {
+	if node.Type != html.ElementNode || !IsProbablyVisible(node) {
+		return false
+	}
+
+	switch GetDisplayStyle(node) {
+	case "inline", "inline-block", "none", "ruby", "ruby-text":
+		return false
+	default:
+		return true
+	}
 }
